@@ -129,7 +129,7 @@ def print_assumptions(module, names):
             res[n] = []
         else:
             axs = re.findall(r"^([A-Za-z_][\w.']*)\s*:", body, re.M)
-            res[n] = axs
+            res[n] = [a for a in axs if a not in ("Axioms", "Section", "Variables", "Opaque")]
     return res, out
 
 
